@@ -570,6 +570,9 @@ func c05Gen(rng *sim.Rand, tier string) interface{} {
 	nr := rng.Range(1, 3)
 	for i := 0; i < nr; i++ {
 		ru := c05Rule{Host: rng.PickStr("", "a.test", "a.test", "b.test"), Paths: []c05Path{}}
+		if ru.Host != "" && rng.Bool(0.06) {
+			ru.Host = strings.ToUpper(ru.Host[:1]) + ru.Host[1:] // a rule for the other spelling
+		}
 		ru.Filter = c05GenFilter(rng, entryPool, pR)
 		npth := rng.Pick(0, 1, 1, 2, 2, 3)
 		for j := 0; j < npth; j++ {
@@ -680,9 +683,52 @@ func c05Gen(rng *sim.Rand, tier string) interface{} {
 			rng.PickStr("GET", "GET", "GET", "POST"),
 			rng.PickStr("/a", "/a", "/a", "/a/x", "/b", "/")
 	}
+	// respell: the same key with ONE component spelled differently in letter
+	// case only (Host: RFC-wise the same host, for the rules' exact match
+	// another one; method and path are case-sensitive) or, for the path, with a
+	// trailing slash. Whatever the router makes of the respelled request, it is
+	// another request than the original and must not inherit its cached route.
+	respell := func(h, m, p string) (string, string, string) {
+		switch rng.Intn(6) {
+		case 0, 1, 2: // host
+			name, port := h, ""
+			if i := strings.Index(h, ":"); i >= 0 {
+				name, port = h[:i], h[i:]
+			}
+			switch rng.Intn(3) {
+			case 0:
+				name = strings.ToUpper(name[:1]) + name[1:]
+			case 1:
+				name = strings.ToUpper(name)
+			default:
+				if i := strings.Index(name, "."); i >= 0 {
+					name = name[:i] + strings.ToUpper(name[i:])
+				}
+			}
+			return name + port, m, p
+		case 3: // method
+			return h, strings.ToLower(m), p
+		case 4: // path, letter case
+			if p == "/" {
+				return h, m, "/A"
+			}
+			return h, m, strings.ToUpper(p)
+		}
+		if p == "/" {
+			return h, m, "//"
+		}
+		return h, m, p + "/"
+	}
+	caseP := float64(rng.Pick(0, 0, 10, 25)) / 100
 	var focus [][3]string
 	for i, n := 0, rng.Range(1, 3); i < n; i++ {
 		h, m, p := randKey()
+		focus = append(focus, [3]string{h, m, p})
+	}
+	if caseP > 0 && rng.Bool(0.7) {
+		// a hot key and its respelling: requests for both meet in one history
+		k := focus[rng.Intn(len(focus))]
+		h, m, p := respell(k[0], k[1], k[2])
 		focus = append(focus, [3]string{h, m, p})
 	}
 	focusP := float64(rng.Pick(30, 60, 90)) / 100
@@ -733,6 +779,9 @@ func c05Gen(rng *sim.Rand, tier string) interface{} {
 				op.Host, op.Method, op.Path = k[0], k[1], k[2]
 			} else {
 				op.Host, op.Method, op.Path = randKey()
+			}
+			if rng.Bool(caseP * 0.5) {
+				op.Host, op.Method, op.Path = respell(op.Host, op.Method, op.Path)
 			}
 			if headers && rng.Bool(0.5) {
 				op.Tag = "v1"
@@ -845,7 +894,10 @@ func c05HostMatches(ruleHost, reqHost string) bool {
 	if h, _, err := net.SplitHostPort(reqHost); err == nil {
 		reqHost = h
 	}
-	return ruleHost == reqHost
+	// "maybe applying" is the lenient category: a rule whose host equals the
+	// request's up to letter case counts (host names are case-insensitive by
+	// RFC 7230, the rules' host field is documented as an exact match).
+	return strings.EqualFold(ruleHost, reqHost)
 }
 
 // ---- system under test -------------------------------------------------------
@@ -1302,6 +1354,7 @@ func c05Exec(r *sim.Run, sci interface{}) {
 	reloading := false
 	inflight, reqEvents := 0, 0
 	keySeen := map[string]bool{}
+	foldSeen := map[string][]string{} // key folded to lower case, trailing slash cut -> exact keys requested
 
 	// status applies the statement's decision table of generation view gv to
 	// one request: level = "server"/"rule"/"path" when a filter applying to
@@ -1580,6 +1633,27 @@ func c05Exec(r *sim.Run, sci interface{}) {
 		key := op.Host + " " + op.Method + " " + op.Path
 		seenBefore := keySeen[key]
 		keySeen[key] = true
+		if fk := strings.ToLower(strings.TrimSuffix(key, "/")); !seenBefore {
+			for _, prev := range foldSeen[fk] {
+				pf := strings.Fields(prev)
+				if len(pf) != 3 {
+					continue
+				}
+				switch {
+				case pf[0] != op.Host:
+					r.Probe("c05.host_respelled_after_earlier_request_for_same_method_path")
+					if sc.CacheSize > 0 {
+						r.Probe("c05.host_respelled_after_earlier_request_with_route_cache")
+					}
+				case pf[1] != op.Method:
+					r.Probe("c05.method_respelled_after_earlier_request")
+				default:
+					r.Probe("c05.path_respelled_after_earlier_request")
+				}
+				break
+			}
+			foldSeen[fk] = append(foldSeen[fk], key)
+		}
 		// --- the request; no gate between the snapshots and ServeHTTP
 		lo := done
 		inflight++
